@@ -607,6 +607,9 @@ where
                         .tx(tx_config, radio_buffer.as_ref_for_read())
                         .await
                         .map_err(Error::Radio)?;
+                    // No receive windows follow this answer: complete the uplink right away so
+                    // that its frame counter is consumed and never reused by the next uplink.
+                    let _ = mac.rx2_complete();
                     if let Some(rx_config) = rx_config {
                         radio.setup_rx(rx_config).await.map_err(Error::Radio)?;
                     }
